@@ -31,6 +31,8 @@ ASSUMPTIONS = [
     "initiator's on_connect sends Logon(98=0, 108=hb)",
     "the heartbeat watchdog does not fire during the run (no tick events; C12 covers it on one endpoint)",
     "messages carry plain tags only; journals behave as the abstract store (C13); frame <-> field list is C01",
+    "theorem side conditions (explicit, decidable): Wf evs (application messages only, single-byte SendingTime text) "
+    "and InRange (outbound counters of the final state <= sys.maxsize + 1, i.e. within SQLite's INTEGER range)",
 ]
 MODELLED_NOT_VERIFIED = [
     "C07: the composition (queues, break, reconnect, who sends Logon) is hand-modelled in Model/Link.lean on top of the "
@@ -486,6 +488,14 @@ def correspondence(ctx):
         ev2, dis2 = exhaustive(pair, drv, depth, stats)
         evals += ev2
         dis += dis2
+        # model-only exhaustive exploration (state hashing inside the driver): on every reached state the abstraction
+        # commutes with the step functions, the invariants SafeInv / SyncInv hold and the property's clauses hold
+        mdepth = ctx.n(10, 14)
+        rep = drv.batch([f"sched.link-explore {mdepth} {HB}"])[0]
+        stats["model_exploration"] = rep[:300]
+        if " bad 0" not in rep:
+            dis.append({"input": {"events": [], "label": "model-exploration"}, "model": rep[:1500],
+                        "impl": "expected: bad 0"})
         return {
             "evaluations": evals,
             "distinct_nontrivial": len(distinct),
@@ -495,7 +505,9 @@ def correspondence(ctx):
                     f"EVERY event (effects, states, counters, watermark, stored counters, row counts, queue lengths, quiescence) "
                     f"and on the whole state (journals decoded, queues) every {K}th event and at the end; plus exhaustive "
                     f"breadth-first exploration to depth {depth} over the 6-event alphabet with state hashing, whole state "
-                    "compared after every (state, event). distinct = distinct (event, effect-kind sequence, state I, state A).",
+                    "compared after every (state, event). distinct = distinct (event, effect-kind sequence, state I, state A). "
+                    f"Model-only: exhaustive exploration to depth {mdepth} inside the driver checking absLink(step) = "
+                    "astep(absLink), SafeInv, SyncInv and the property's clauses on every state.",
             "samples": samples,
             "exhaustive": True,
             "distribution": stats,
@@ -578,7 +590,7 @@ class Monitor:
         return bool(fails)
 
 
-def drain(pair: Pair, events, mon, now, limit=400):
+def drain(pair: Pair, events, mon, now, limit=60):
     """deliver everything in flight (alternating directions); reconnect first when disconnected"""
     for _ in range(limit):
         if not (pair.sock("I") or pair.sock("A")):
@@ -645,13 +657,7 @@ def oracle(ctx, disagreements, broken):
                 mon.recoveries += 1
         # exhaustive on the implementation alone (when the tie is broken, or in the thorough tier)
         if broken or ctx.tier == "thorough":
-            st = {"event": {}}
-            seen_fail = []
-
-            def chk(p, events):
-                mon.check(p, events)
-
-            exhaustive_impl(pair, ctx.n(8, 10), chk)
+            exhaustive_impl(pair, ctx.n(8, 10), lambda p, events: mon.check(p, events))
         ctx.oracle_stats = {"states_checked": mon.n, "quiescent_points": mon.quiescent, "walks": nw,
                             "completed_recoveries": mon.recoveries, "failures": len(mon.failures),
                             "sentences": ["duplicate-or-reordered-number", "not-a-subsequence", "number-reused",
